@@ -116,6 +116,26 @@ func c13NewDialer(u *c13Underlay) *componentdialer.Dialer {
 
 const c13Target = "198.51.100.7:4433"
 
+// lifetime of a negative-cache entry as the real code sets it (a literal in cacheFailureLocked), measured once
+var c13FailureTtlOnce sync.Once
+var c13FailureTtlVal int64
+
+func c13FailureTtlMs() int64 {
+	c13FailureTtlOnce.Do(func() {
+		p := NewUdpEndpointPool()
+		defer p.Close()
+		key := c13EpKey(0, false)
+		before := time.Now().UnixNano()
+		p.cacheFailureLocked(key, nil)
+		sh := p.shardFor(key)
+		sh.mu.RLock()
+		ue := sh.pool[key]
+		sh.mu.RUnlock()
+		c13FailureTtlVal = ((ue.expiresAtNano.Load() - before) + 5e5) / 1e6
+	})
+	return c13FailureTtlVal
+}
+
 // set by the sequence runner only: the concurrency replays create thousands of short-lived pools
 var c13RealMaps = false
 
@@ -340,7 +360,7 @@ func (e *c13EpEnv) hook(name string, args ...any) {
 	e.mu.Lock()
 	gid, want := e.hookGid, e.hookWant[name]
 	e.mu.Unlock()
-	if gid == 0 || !want || c13Goid() != gid {
+	if gid == 0 || !want || (gid > 0 && c13Goid() != gid) {
 		return
 	}
 	p := &c13EpPark{name: name, resume: make(chan struct{})}
@@ -390,6 +410,8 @@ type c13Window struct {
 	noInval bool                  // inside a split InvalidateDialerNetworkType
 	avoid   *udpEndpointPoolShard // shard whose creation mutex the parked creator holds
 	keys    []int                 // keys worth hitting (endpoints of the dialer under invalidation)
+	rng     *VRand                // generator for everything drawn inside the window
+	noTime  bool                  // virtual time must stand still (a janitor pass is parked half-way)
 }
 
 func (e *c13EpEnv) keysOfDialer(d int, symOf map[int]bool) []int {
@@ -413,6 +435,9 @@ func (e *c13EpEnv) keysOfDialer(d int, symOf map[int]bool) []int {
 func c13EpSplitInvalidate(e *c13EpEnv, s *VStream, stats *VStats, r *VRand, symOf map[int]bool,
 	emit func(op, out string), doOp func(int, *c13Window)) {
 	d := r.Intn(2)
+	// The per-endpoint retires come in Go map order. Everything drawn inside the call's windows comes from
+	// a forked generator, so the number of draws taken from the sequence's generator does not depend on it.
+	rw := r.Fork()
 	nt := &componentdialer.NetworkType{L4Proto: consts.L4ProtoStr_UDP, IpVersion: consts.IpVersionStr_4, UdpHealthDomain: componentdialer.UdpHealthDomainData}
 	done := make(chan int, 1)
 	e.setWant("invalidate.afterEpochBump")
@@ -424,37 +449,188 @@ func c13EpSplitInvalidate(e *c13EpEnv, s *VStream, stats *VStats, r *VRand, symO
 	}
 	emit(fmt.Sprintf("ep ibump %d", d), "ok")
 	stats.Inc("ep.split.inval")
-	win := &c13Window{noInval: true, keys: e.keysOfDialer(d, symOf)}
-	for j, n := 0, r.Intn(4); j < n; j++ {
-		doOp(r.Intn(100), win)
+	win := &c13Window{noInval: true, keys: e.keysOfDialer(d, symOf), rng: rw}
+	for j, n := 0, rw.Intn(4); j < n; j++ {
+		doOp(rw.Intn(100), win)
 		stats.Inc("ep.split.inval.opAfterBump")
+	}
+	// how many endpoints the loop is going to retire (bucket members that carried no traffic)
+	nvict := 0
+	for _, ue := range e.eps {
+		if c, ok := ue.conn.(*c13Conn); ok && c != nil && c.closes.Load() == 0 && ue.Dialer == e.dialers[d] &&
+			!ue.hasSent.Load() && !ue.hasReply.Load() {
+			nvict++
+		}
 	}
 	e.setWant("retire.afterMarkDead")
 	close(p.resume)
 	synctest.Wait()
 	s.Emit(fmt.Sprintf("ep isnap %d", d), "ok")
 	cur := e.takePark()
-	if cur != nil {
-		s.Emit(fmt.Sprintf("ep markdead %d", e.id(cur.ue)), "ok")
-	}
-	s.Emit("ep st", e.digest(symOf))
-	for cur != nil {
-		for j, n := 0, r.Intn(3); j < n; j++ {
-			doOp(r.Intn(100), win)
-			stats.Inc("ep.split.inval.opInsideRetire")
+	if nvict > 1 {
+		// several victims: they are retired in Go map order, which no seed controls.  Step through without
+		// interleaving anything and report the (commuting) retires in endpoint order, so that the stream
+		// is the same for every run of a seed.
+		var ids []int
+		for cur != nil {
+			ids = append(ids, e.id(cur.ue))
+			close(cur.resume)
+			synctest.Wait()
+			cur = e.takePark()
 		}
-		id := e.id(cur.ue)
-		close(cur.resume)
-		synctest.Wait()
-		s.Emit(fmt.Sprintf("ep retirefin %d", id), "ok")
-		cur = e.takePark()
+		sort.Ints(ids)
+		for _, id := range ids {
+			s.Emit(fmt.Sprintf("ep markdead %d", id), "ok")
+			s.Emit(fmt.Sprintf("ep retirefin %d", id), "ok")
+		}
+		s.Emit("ep st", e.digest(symOf))
+		stats.Inc("ep.split.inval.multiVictim")
+	} else {
 		if cur != nil {
 			s.Emit(fmt.Sprintf("ep markdead %d", e.id(cur.ue)), "ok")
 		}
 		s.Emit("ep st", e.digest(symOf))
+		for cur != nil {
+			for j, n := 0, rw.Intn(3); j < n; j++ {
+				doOp(rw.Intn(100), win)
+				stats.Inc("ep.split.inval.opInsideRetire")
+			}
+			id := e.id(cur.ue)
+			close(cur.resume)
+			synctest.Wait()
+			s.Emit(fmt.Sprintf("ep retirefin %d", id), "ok")
+			cur = e.takePark()
+			if cur != nil {
+				s.Emit(fmt.Sprintf("ep markdead %d", e.id(cur.ue)), "ok")
+			}
+			s.Emit("ep st", e.digest(symOf))
+		}
 	}
 	e.setWant()
 	emit("ep iend", fmt.Sprintf("removed=%d", <-done))
+}
+
+// One janitor pass step by step: the tick | entries leave the table | (other operations) | each removed
+// endpoint is closed (yield point janitor.beforeClose sits between removal and Close).
+func c13EpSplitJanitor(e *c13EpEnv, s *VStream, stats *VStats, r *VRand, symOf map[int]bool,
+	emit func(op, out string), doOp func(int, *c13Window)) {
+	rw := r.Fork()
+	table := func() map[int]*UdpEndpoint {
+		m := map[int]*UdpEndpoint{}
+		for k := 0; k < 6; k++ {
+			key := c13EpKey(k, symOf[k])
+			sh := e.pool.shardFor(key)
+			sh.mu.RLock()
+			if ue := sh.pool[key]; ue != nil {
+				m[k] = ue
+			}
+			sh.mu.RUnlock()
+		}
+		return m
+	}
+	var minExp int64
+	for _, ue := range table() {
+		if x := ue.expiresAtNano.Load(); x > 1 && (minExp == 0 || x < minExp) {
+			minExp = x
+		}
+	}
+	if minExp == 0 {
+		return
+	}
+	now := time.Now().UnixNano()
+	iv := int64(udpEndpointJanitorInterval)
+	from := minExp
+	if from <= now {
+		from = now + 1
+	}
+	tick := e.t0 + ((from-e.t0+iv-1)/iv)*iv
+	if dt := (tick-now)/1e6 - 1; dt > 0 {
+		time.Sleep(time.Duration(dt) * time.Millisecond)
+		synctest.Wait()
+		emit(fmt.Sprintf("ep adv %d", dt), "ok")
+	}
+	if rest := tick - time.Now().UnixNano(); rest != 1e6 {
+		return // the tick is not exactly one millisecond ahead (sub-millisecond start): leave it to ordinary ops
+	}
+	// how many entries this tick is going to remove
+	nexp := 0
+	for _, ue := range table() {
+		x := ue.expiresAtNano.Load()
+		if (x > 0 && x <= tick) || (!e.pool.endpointGenerationCurrent(ue) && !e.pool.endpointSurvivesDialerInvalidation(ue)) {
+			nexp++
+		}
+	}
+	before := table()
+	e.mu.Lock()
+	e.hookGid = -1 // the janitor goroutine
+	e.mu.Unlock()
+	e.setWant("janitor.beforeClose")
+	time.Sleep(time.Millisecond)
+	synctest.Wait()
+	cur := e.takePark()
+	if cur == nil {
+		e.mu.Lock()
+		e.hookGid = 0
+		e.mu.Unlock()
+		e.setWant()
+		emit("ep adv 1", "ok")
+		return
+	}
+	stats.Inc("ep.split.janitor")
+	s.Emit("ep jtick 1", "ok")
+	removed := func() {
+		after := table()
+		var ks []int
+		for k, ue := range before {
+			if after[k] != ue {
+				ks = append(ks, k)
+			}
+		}
+		sort.Ints(ks)
+		for _, k := range ks {
+			s.Emit(fmt.Sprintf("ep jremove %d %d", k, e.id(before[k])), "ok")
+		}
+		before = after
+	}
+	win := &c13Window{noInval: true, noTime: true, rng: rw}
+	if nexp > 1 {
+		// several entries expire at this tick (Go map order inside a shard): no interleaving, report in id order
+		var ids []int
+		for cur != nil {
+			ids = append(ids, e.id(cur.ue))
+			close(cur.resume)
+			synctest.Wait()
+			cur = e.takePark()
+		}
+		removed()
+		sort.Ints(ids)
+		for _, id := range ids {
+			s.Emit(fmt.Sprintf("ep jclose %d", id), "ok")
+		}
+		stats.Inc("ep.split.janitor.multi")
+	} else {
+		for cur != nil {
+			removed()
+			s.Emit("ep st", e.digest(symOf))
+			for j, n := 0, 1+rw.Intn(3); j < n; j++ {
+				doOp(rw.Intn(100), win)
+				stats.Inc("ep.split.janitor.opBeforeClose")
+			}
+			before = table()
+			id := e.id(cur.ue)
+			close(cur.resume)
+			synctest.Wait()
+			s.Emit(fmt.Sprintf("ep jclose %d", id), "ok")
+			cur = e.takePark()
+		}
+		removed()
+	}
+	e.mu.Lock()
+	e.hookGid = 0
+	e.mu.Unlock()
+	e.setWant()
+	s.Emit("ep st", e.digest(symOf))
+	s.Emit("ep jend", "ok")
 }
 
 // GetOrCreate's creation step by step: dialled, object built (generation captured) | (other operations,
@@ -505,11 +681,42 @@ func c13EpSplitCreate(e *c13EpEnv, s *VStream, stats *VStats, r *VRand, symOf ma
 		}
 		doOp(c, win)
 	}
-	e.setWant()
+	// second park: the object is in the table, but not yet in the dialer's bucket and its read loop has not
+	// started (yield point create.afterPublish)
+	e.setWant("create.afterPublish")
 	close(p.resume)
 	synctest.Wait()
+	p2 := e.takePark()
+	if p2 == nil || p2.ue == nil {
+		panic("c13: creator did not reach create.afterPublish")
+	}
+	newID := e.id(p2.ue)
+	emit("ep gocpub", fmt.Sprintf("new %d", newID))
+	if r.Chance(0.7) {
+		// what other packet handlers can do with it already: look it up, send through it
+		ueG, okG := e.pool.Get(c13EpKey(k, symOf[k]))
+		outG := "none"
+		if okG {
+			outG = fmt.Sprintf("e%d", e.id(ueG))
+		}
+		s.Emit(fmt.Sprintf("ep get %d", k), outG)
+		if r.Chance(0.5) {
+			p2.ue.conn.(*c13Conn).writeMode.Store(0)
+			_, werr := p2.ue.WriteTo([]byte("data"), c13Target)
+			synctest.Wait()
+			wout := "ok"
+			if werr != nil {
+				wout = "fail"
+			}
+			emit(fmt.Sprintf("ep write %d ok", newID), wout)
+		}
+		stats.Inc("ep.split.create.opsAfterPublish")
+	}
+	e.setWant()
+	close(p2.resume)
+	synctest.Wait()
 	x := <-done
-	emit("ep gocpub", e.gocFmt(x.ue, x.isNew, x.err))
+	s.Emit("ep gocret", e.gocFmt(x.ue, x.isNew, x.err)) // what the creating call finally returns: the object it published
 	// the same key again, and a look-up: a stale-generation never-used endpoint must be replaced, not handed out
 	if r.Chance(0.8) {
 		res, _ := e.goc(k, symOf[k], nat, g, g, d, "ok")
@@ -541,6 +748,8 @@ func c13RunEpSeq(t *testing.T, s *VStream, stats *VStats, r *VRand) {
 			synctest.Wait()
 		}()
 		s.Emit("ep reset", "ok")
+		// tuning constants of the real pool (not part of the property): handed to the model
+		s.Emit(fmt.Sprintf("ep consts %d %d %d", udpEndpointJanitorInterval.Milliseconds(), ttlRefreshMinInterval/1e6, c13FailureTtlMs()), "ok")
 		symOf := map[int]bool{}
 		for k := 0; k < 6; k++ {
 			symOf[k] = r.Bool()
@@ -553,50 +762,57 @@ func c13RunEpSeq(t *testing.T, s *VStream, stats *VStats, r *VRand) {
 		nops := 10 + r.Intn(60)
 		var doOp func(c int, win *c13Window)
 		doOp = func(c int, win *c13Window) {
+			rng := r
+			if win != nil && win.rng != nil {
+				rng = win.rng
+			}
 			if win != nil && c >= 88 && c < 95 && (win.noInval || c >= 93) {
-				c = r.Intn(30) // no nested invalidation / Reset inside a window: a GetOrCreate instead
+				c = rng.Intn(30) // no nested invalidation / Reset inside a window: a GetOrCreate instead
+			}
+			if win != nil && win.noTime && c >= 77 && c < 88 {
+				c = 30 + rng.Intn(35) // look-ups, writes, replies instead of letting time pass
 			}
 			pickEp := func() int {
 				if len(e.eps) == 0 {
 					return -1
 				}
 				// prefer recent endpoints
-				if r.Chance(0.6) {
-					return len(e.eps) - 1 - r.Intn(min(3, len(e.eps)))
+				if rng.Chance(0.6) {
+					return len(e.eps) - 1 - rng.Intn(min(3, len(e.eps)))
 				}
-				return r.Intn(len(e.eps))
+				return rng.Intn(len(e.eps))
 			}
 			switch {
 			case c < 30:
-				k := r.Intn(6)
-				if r.Chance(0.5) {
-					k = r.Intn(2) // collide on few keys
+				k := rng.Intn(6)
+				if rng.Chance(0.5) {
+					k = rng.Intn(2) // collide on few keys
 				}
-				if win != nil && len(win.keys) > 0 && r.Chance(0.6) {
-					k = win.keys[r.Intn(len(win.keys))] // a key whose endpoint belongs to the dialer under invalidation
+				if win != nil && len(win.keys) > 0 && rng.Chance(0.6) {
+					k = win.keys[rng.Intn(len(win.keys))] // a key whose endpoint belongs to the dialer under invalidation
 				}
 				if win != nil && win.avoid != nil && e.pool.shardFor(c13EpKey(k, symOf[k])) == win.avoid {
 					return // would block on the creation mutex the parked creator holds
 				}
-				owner, drain := r.Intn(3)-1, r.Intn(3)-1
-				if r.Chance(0.6) { // generations usually come as (owner i, drain i)
-					g := r.Intn(2)
+				owner, drain := rng.Intn(3)-1, rng.Intn(3)-1
+				if rng.Chance(0.6) { // generations usually come as (owner i, drain i)
+					g := rng.Intn(2)
 					owner, drain = g, g
 				}
-				d := r.Intn(2)
+				d := rng.Intn(2)
 				outcome := "ok"
-				switch x := r.Intn(10); {
+				switch x := rng.Intn(10); {
 				case x == 0:
 					outcome = "gen"
 				case x == 1:
 					outcome = "noalive"
 				}
-				nat := nats[r.Intn(len(nats))]
+				nat := nats[rng.Intn(len(nats))]
 				res, _ := e.goc(k, symOf[k], nat, owner, drain, d, outcome)
 				stats.Inc("ep.goc." + strings.Fields(res)[0])
 				emit(fmt.Sprintf("ep goc %d %s %d %s %s %d %s", k, c13B(symOf[k]), nat, c13OptTok(owner), c13OptTok(drain), d, outcome), res)
 			case c < 38:
-				k := r.Intn(6)
+				k := rng.Intn(6)
 				ue, ok := e.pool.Get(c13EpKey(k, symOf[k]))
 				out := "none"
 				if ok {
@@ -611,7 +827,7 @@ func c13RunEpSeq(t *testing.T, s *VStream, stats *VStats, r *VRand) {
 				}
 				ue := e.eps[id]
 				mode, tok := 0, "ok"
-				switch x := r.Intn(8); {
+				switch x := rng.Intn(8); {
 				case x == 0:
 					mode, tok = 1, "err"
 				case x == 1:
@@ -632,7 +848,7 @@ func c13RunEpSeq(t *testing.T, s *VStream, stats *VStats, r *VRand) {
 					return
 				}
 				ue := e.eps[id]
-				hok := !r.Chance(0.15)
+				hok := !rng.Chance(0.15)
 				e.mu.Lock()
 				e.handlerKO[ue] = !hok
 				e.mu.Unlock()
@@ -662,9 +878,9 @@ func c13RunEpSeq(t *testing.T, s *VStream, stats *VStats, r *VRand) {
 				}
 				ue := e.eps[id]
 				k := int(ue.poolKey.Src.Port()) - 30000
-				if !e.isPooled(ue) && r.Chance(0.3) {
+				if !e.isPooled(ue) && rng.Chance(0.3) {
 					// a stale Remove (the endpoint is gone already) under an arbitrary key: only closes (no-op)
-					k = r.Intn(6)
+					k = rng.Intn(6)
 				}
 				err := e.pool.Remove(c13EpKey(k, symOf[k]), ue)
 				synctest.Wait()
@@ -685,13 +901,13 @@ func c13RunEpSeq(t *testing.T, s *VStream, stats *VStats, r *VRand) {
 				emit(fmt.Sprintf("ep close %d", id), "ok")
 			case c < 88:
 				dts := []int{50, 250, 200, 1000, 1900, 2100, 400, 29000, 31000, 125000, 249, 1}
-				dt := dts[r.Intn(len(dts))]
+				dt := dts[rng.Intn(len(dts))]
 				time.Sleep(time.Duration(dt) * time.Millisecond)
 				synctest.Wait()
 				stats.Inc("ep.adv")
 				emit(fmt.Sprintf("ep adv %d", dt), "ok")
 			case c < 93:
-				d := r.Intn(2)
+				d := rng.Intn(2)
 				nt := &componentdialer.NetworkType{L4Proto: consts.L4ProtoStr_UDP, IpVersion: consts.IpVersionStr_4, UdpHealthDomain: componentdialer.UdpHealthDomainData}
 				n := e.pool.InvalidateDialerNetworkType(e.dialers[d], nt)
 				synctest.Wait()
@@ -707,7 +923,7 @@ func c13RunEpSeq(t *testing.T, s *VStream, stats *VStats, r *VRand) {
 				if id < 0 {
 					return
 				}
-				j := r.Intn(4)
+				j := rng.Intn(4)
 				a, b := c13PairAddrs(j)
 				ue := e.eps[id]
 				ue.udpConnStateMu.Lock()
@@ -717,7 +933,7 @@ func c13RunEpSeq(t *testing.T, s *VStream, stats *VStats, r *VRand) {
 					// the datapath has created the flow's conn-state entries (the reverse one only once a
 					// reply was seen)
 					_ = e.connState.Put(bpfTuplesKeyFromAddrPorts(a, b, 17), uint64(1))
-					if r.Chance(0.7) {
+					if rng.Chance(0.7) {
 						_ = e.connState.Put(bpfTuplesKeyFromAddrPorts(b, a, 17), uint64(1))
 					}
 				}
@@ -731,8 +947,10 @@ func c13RunEpSeq(t *testing.T, s *VStream, stats *VStats, r *VRand) {
 			switch {
 			case x < 100:
 				doOp(x, nil)
-			case x < 107:
+			case x < 105:
 				c13EpSplitInvalidate(e, s, stats, r, symOf, emit, doOp)
+			case x < 108:
+				c13EpSplitJanitor(e, s, stats, r, symOf, emit, doOp)
 			default:
 				c13EpSplitCreate(e, s, stats, r, symOf, emit, doOp, nats)
 			}
